@@ -231,7 +231,7 @@ func (h *hgen) newTx(forBlock bool) int {
 		d.set("did", pick(r, didToks))
 	case w < 102:
 		d.ty = int(common2.WithdrawFromSideChain)
-		d.pver = r.Intn(2)
+		d.pver = r.Intn(3) // V0: hashes in the payload, V1 and V2 (schnorr): in the withdraw outputs
 		n := 1 + r.Intn(3)
 		var hs []string
 		for i := 0; i < n; i++ {
